@@ -88,6 +88,28 @@ func TestC04Proc(t *testing.T) {
 			})
 			exp = append(exp, beh{name: "managed-cleanup", maxKillMs: 30000})
 		}
+		// a client that was started but never connected (no Client() call): Kill / CleanupClients still deliver the
+		// shutdown request, so a healthy plugin exits by itself and completes its cleanup (300 ms of it)
+		for _, how := range []string{"kill", "cleanup", "cleanup-twice"} {
+			for _, tl := range []string{"none", "auto"} {
+				ops := []string{"new", "start"}
+				switch how {
+				case "kill":
+					ops = append(ops, "kill", "proc?")
+				case "cleanup":
+					ops = append(ops, "cleanup", "proc?")
+				case "cleanup-twice": // the process-wide clean-up has run before (for an earlier plugin); this one comes later
+					ops = append(ops, "client", "dispense", "cleanup", "rmmarker", "new", "start", "cleanup", "proc?")
+				}
+				cells = append(cells, Cell{
+					Name:   fmt.Sprintf("%s launch=cmd tls=%s plugin=exits-after-300ms, started only (%s)", proto, tl, how),
+					Plugin: PluginConf{CookieKey: cookieKey, CookieValue: cookieVal, Legacy: 1, LegacyProto: proto, GRPCServer: true, TLS: "none", ExitMarker: "auto", ExitDelayMs: 300},
+					Host:   HostConf{Allowed: []string{"netrpc", "grpc"}, TLS: tl, Launch: "cmd", Legacy: 1, SkipHostEnv: true, Managed: how != "kill"},
+					Ops:    ops,
+				})
+				exp = append(exp, beh{name: "started-only " + how, marker: true, maxKillMs: 30000})
+			}
+		}
 		// never completed the handshake
 		cells = append(cells, Cell{Name: proto + " launch=cmd plugin=silent (start timeout)", Plugin: PluginConf{LegacyProto: proto},
 			Host: HostConf{Allowed: []string{"netrpc", "grpc"}, TLS: "none", Launch: "cmd", Legacy: 1, Script: "exec sleep 30", StartTimeoutMs: 1500},
